@@ -266,6 +266,9 @@ def gen_inputs(tier, rng):
             objs = [rand_obj(rng, n, "func", colext), rand_obj(rng, n, rng.choice(["rect", "rect", "delaunay"])), rand_obj(rng, n, "func", colext)][:rng.choice([2, 3])]
             if rng.random() < 0.5: objs.reverse()
             for o in objs: o["reg"] = o["reg"] and rng.random() < 0.5      # several unregularized objects
+        if ext and all(o["kind"] == "func" for o in objs):
+            # an extreme dataset always meets a mapper (the w-tilde tables are only used then), at a random position
+            objs[rng.randrange(len(objs))] = rand_obj(rng, n, rng.choice(["rect", "rect", "delaunay"]))
         eps = rng.choice([None, "1/1024", "1/2", "1/1024"])
         if ext in ("noise_huge", "psf_tiny"): eps = rng.choice([None, "1/1073741824"])
         yield {"op": "inv", "ds": ds, "objs": objs, "eps": eps, "rseed": rng.randrange(10 ** 6), "ext": ext or colext, "k": i}
